@@ -202,7 +202,12 @@ def rewrap_and_returns(chk, prog):
                 continue
             n += 1
             site = "%s::%s" % (ref, r["text"])
-            why = exempt.get(r["text"])
+            v = r["stmt"].value
+            why = None
+            if isinstance(v, ast.Call) and isinstance(v.func, ast.Attribute) and v.func.attr == "to_DCM":
+                why = "rotation-matrix representation of a constructor-normalised quaternion"
+            if ref.endswith("Quaternion.from_rpy"):
+                why = "AVN"
             if why == "AVN":
                 def avn():
                     it = Interp(prog, oracle=lambda c, i: False if c.op in ("<", ">") else None)   # angles inside [-2pi, 2pi]
